@@ -55,7 +55,7 @@ pub fn main(args: &Args, ext: &Externs) -> i32 {
     });
     // field types that are nameable but neither Send nor Sync, or only one of the two (no Clone, no
     // serde: the bare fragment selection only) - in the first variant / added later, removed later
-    let kinds = ["Both", "SendOnly", "SendOnlyWrapped", "SyncOnly", "Neither", "NeitherWrapped", "RawPtr"];
+    let kinds = ["Both", "SendOnly", "SendOnlyWrapped", "SyncOnly", "Neither", "NeitherWrapped", "RawPtr", "NeitherCopy?", "SyncOnlyCopy?", "SendOnlyCopy?"];
     let extra = crate::parallel(kinds.len() * 2, |i| {
         use truc::record::{definition::builder::native::NativeRecordDefinitionBuilder, type_resolver::HostTypeResolver};
         let kind = kinds[i / 2];
@@ -70,6 +70,9 @@ pub fn main(args: &Args, ext: &Externs) -> i32 {
                     "SyncOnly" => $b.add_datum::<usertypes::SyncOnly, _>($name),
                     "Neither" => $b.add_datum::<usertypes::Neither, _>($name),
                     "NeitherWrapped" => $b.add_datum::<usertypes::NeitherWrapped, _>($name),
+                    "NeitherCopy?" => $b.add_datum_allow_uninit::<usertypes::NeitherCopy, _>($name),
+                    "SyncOnlyCopy?" => $b.add_datum_allow_uninit::<usertypes::SyncOnlyCopy, _>($name),
+                    "SendOnlyCopy?" => $b.add_datum_allow_uninit::<usertypes::SendOnlyCopy, _>($name),
                     _ => $b.add_datum::<usertypes::RawPtr, _>($name),
                 }
                 .unwrap()
